@@ -2,6 +2,7 @@ import TxVerif.Props.C13
 import TxVerif.Tie.PQ
 import TxVerif.Props.C13Stale
 import TxVerif.Props.PQQueueConc
+import TxVerif.Proofs.PQQueueConcFail
 open TxVerif
 #print axioms pq_writers_exclusive
 #print axioms pq_no_deadlock
@@ -49,3 +50,6 @@ open TxVerif
 #print axioms conc_example_stale_plan
 #print axioms conc_example_blocking
 #print axioms conc_reach_example
+#print axioms QInv_sameBuf
+#print axioms sim_flush_failed
+#print axioms sim_next_failed
